@@ -93,6 +93,11 @@ def run(rep: Report, tier: str) -> None:
     _check_float_taint(rep, m, tier)
     _check_decimal_class(rep, m)
 
+    # ---------------------------------------------------------------- C04.e
+    from . import c11
+
+    c11.check_split(rep, rep.rule("C04.e", "exchange-supplied fiat values survive the crypto-fee split of the parser (every field forwarded)", floor=20))
+
     # ---------------------------------------------------------------- C04.d
     r = rep.rule("C04.d", "one definition: consumers read the three figures from GainLoss (no percentage-based recomputation inside them)", floor=3)
     for fi, t in ((cb_fi, cb), (pr_fi, pr), (gn_fi, gn)):
